@@ -114,6 +114,9 @@ def _method_variants(rng, base):
         variants = [(1.0, 1.0),
                     (rng.choice([0.25, 0.5, 0.75]), rng.choice([0.5, 0.75, 1.0])),
                     rng.choice([(0.0, 1.0), (1.0, 0.0), (0.0, 0.5)])]
+        # the same method NAME gets a different coverage from world to world (0 / 1 / in between)
+        rot = rng.randrange(3)
+        variants = variants[rot:] + variants[:rot]
         for vi, (sp, tp) in enumerate(variants):
             m = copy.deepcopy(base[tmpl])
             m["measurement_scale"] = scale
@@ -151,6 +154,16 @@ def build_world(rng) -> World:
     ]
     cfg["methods"] = _method_variants(rng, cfg["methods"])
     cfg["programs"] = [{"name": "P_none", "methods": []}, {"name": "P_all", "methods": list(cfg["methods"])}]
+    # per-site `<method>_spatial` / `_temporal` overrides in the sites file: within one world the same
+    # method has different coverage probabilities at different sites (incl. 0 and 1)
+    extra = {}
+    for m in rng.sample([k for k in cfg["methods"] if k != "FU"], 4):
+        vals = [0.0, 1.0, rng.choice([0.25, 0.5, 0.75])]
+        rng.shuffle(vals)
+        extra[m + "_spatial"] = {s["id"]: vals[i % 3] for i, s in enumerate(cfg["sites"])}
+    m = rng.choice([k for k in cfg["methods"] if k != "FU"])
+    extra[m + "_temporal"] = {s["id"]: rng.choice([0.0, 0.5, 1.0]) for s in cfg["sites"]}
+    cfg["site_extra_cols"] = extra
     root = tempfile.mkdtemp(prefix="ldarverif_c05_")
     try:
         files, in_dir, _ = W.materialize(cfg, root)
@@ -218,7 +231,10 @@ class Scene:
             rs.next = rate
             rates = {src._emis_rate_source: rs}
             n = len(self.em_id) + 1
-            em = src._create_emission(n, SIM_START + timedelta(days=start), SIM_START, rates,
+            # `_emissions_id` restarts at 0 for every source (as in Source.generate_emissions): ids
+            # coincide across sources, sites, scenes and worlds of this process; `n` is the harness's own id
+            k_src = len(per_src.get(id(src), (src, []))[1])
+            em = src._create_emission(k_src, SIM_START + timedelta(days=start), SIM_START, rates,
                                       self.infra.repair_delay_dataframe)
             self.em_id[id(em)] = n
             self.em_obj[n] = em
@@ -316,7 +332,11 @@ class Recorder:
         def check_spatial_cov(self_, method):
             n0 = len(rec.binomial)
             r = o_sp(self_, method)
-            rec.spatial[sc.em_id[id(self_)]] = (int(r), len(rec.binomial) - n0)
+            draws = rec.binomial[n0:]
+            # (returned outcome, number of Bernoulli draws, probability argument and result of the
+            #  first draw made inside this call) -- the draw, not the returned value, is the model's input
+            rec.spatial[sc.em_id[id(self_)]] = (int(r), len(draws), draws[0][0] if draws else None,
+                                                draws[0][1] if draws else None)
             return r
 
         self._patch(Emission, "check_spatial_cov", check_spatial_cov)
@@ -520,7 +540,7 @@ def run_survey(scene: Scene, mm, code, si, day, rng, model=True):
         em = scene.em_obj[n]
         s_idx, g_name, c_name, _ = scene.em_place[n]
         sp = rec.spatial.get(n)
-        sroll = sp[0] if (sp is not None and sp[1] > 0) else rng.randint(0, 1)
+        sroll = sp[3] if (sp is not None and sp[1] > 0) else rng.randint(0, 1)
         troll = rec.temporal.get(n, rng.randint(0, 1))
         emis.append("[%d,%d,%d,%d,%d,%d,%d,%d,%d,[]]" % (
             n, s_idx, scene.eqg_index[g_name], scene.comp_index[c_name], to_units(em.get_rate()),
